@@ -113,10 +113,12 @@ class BuildError(Exception):
     pass
 
 
-def gen_headers(repo, inc, enabled, config_over):
+def gen_headers(repo, inc, enabled, config_over, compat_abi=None):
     os.makedirs(inc, exist_ok=True)
     scripts = os.path.join(repo, 'build-aux', 'scripts')
     mv = makefile_vars(repo)
+    if compat_abi is not None:
+        mv['COMPAT_ABI'] = compat_abi
     env = dict(os.environ, LC_ALL='C')
     en = ',' + ','.join(enabled) + ','
     # config.h: platform facts from the tree's configured config.h + overrides
@@ -166,13 +168,18 @@ def build_variant(name, enabled=None, obsolete=None, failure_tokens=None,
     cc, cflags, kind, pic = VARIANTS[base]
     enabled = sorted(enabled) if enabled is not None else list(ALL_HASHES)
     over = {}
+    compat_abi = None
+    if 'descrypt' not in enabled:
+        # configure.ac: "--enable-hashes=... forces --enable-obsolete-api=no" (COMPAT_ABI=no)
+        obsolete = False
+        compat_abi = 'no'
     if obsolete is not None:
         over['ENABLE_OBSOLETE_API'] = '1' if obsolete else '0'
     if failure_tokens is not None:
         over['ENABLE_FAILURE_TOKENS'] = '1' if failure_tokens else '0'
     cflags = (cflags + ' ' + extra_cflags).strip()
     fp = tree_fingerprint(repo)
-    key = hashlib.sha256(json.dumps([fp, base, cc, cflags, kind, enabled, over, 3]).encode()).hexdigest()[:16]
+    key = hashlib.sha256(json.dumps([fp, base, cc, cflags, kind, enabled, over, compat_abi, 4]).encode()).hexdigest()[:16]
     os.makedirs(BUILD, exist_ok=True)
     tag = base if base != 'cfg' else 'cfg'
     vdir = os.path.join(BUILD, '%s-%s' % (tag, key))
@@ -191,8 +198,10 @@ def build_variant(name, enabled=None, obsolete=None, failure_tokens=None,
         inc = os.path.join(vdir, 'include')
         obj = os.path.join(vdir, 'obj')
         os.makedirs(obj)
-        gen_headers(repo, inc, enabled, over)
+        gen_headers(repo, inc, enabled, over, compat_abi)
         srcs = lib_sources(repo)
+        if obsolete is False:
+            srcs = [x for x in srcs if not x.endswith('crypt-des-obsolete.c')]
         cmds = []
         objs = []
         for s in srcs:
